@@ -155,6 +155,7 @@ type c12Form struct {
 	sep    string
 	lead   string
 	trail  string
+	empty  int // 1: an empty field line first, 2: last, 3: both (an empty field value is an empty list)
 }
 
 func (f c12Form) lines() []string {
@@ -171,6 +172,12 @@ func (f c12Form) lines() []string {
 		}
 		out = append(out, f.lead+strings.Join(f.dirs[start:c], sep)+f.trail)
 		start = c
+	}
+	if f.empty&1 != 0 {
+		out = append([]string{""}, out...)
+	}
+	if f.empty&2 != 0 {
+		out = append(out, "")
 	}
 	return out
 }
@@ -274,6 +281,14 @@ func c12Rewrites(n int) []c12Rewrite {
 		rs = append(rs, c12Rewrite{"ows", sp.name, func(f c12Form, dec int) (c12Form, int) {
 			f = f.clone()
 			f.sep, f.lead, f.trail = sp.sep, sp.lead, sp.trail
+			return f, dec
+		}})
+	}
+	for _, em := range []int{1, 2, 3} {
+		em := em
+		rs = append(rs, c12Rewrite{"emptyline", fmt.Sprintf("empty field line(s) %d", em), func(f c12Form, dec int) (c12Form, int) {
+			f = f.clone()
+			f.empty = em
 			return f, dec
 		}})
 	}
